@@ -1020,6 +1020,97 @@ void facetless_character_types(char const *name, std::uint64_t total)
   }
 }
 
+// ---- a device whose absolute seek fails ONCE for a perfectly good position (a transient I/O error): the restore is
+// reported (the internal exception), the caller clears the stream state and carries on - and the position the stream
+// then reports is where it really is: offset, line and column still belong together.
+template <class Ch>
+struct flaky_seek_buf : fault_buf<Ch>
+{
+  using base = fault_buf<Ch>;
+  using typename base::off_type;
+  using typename base::pos_type;
+  explicit flaky_seek_buf(std::basic_string<Ch> d) : base(d, d.size(), 0) {}
+  int refuse_next = 0;
+  pos_type seekpos(pos_type p, std::ios_base::openmode m) override
+  {
+    if (refuse_next > 0)
+    {
+      --refuse_next;
+      return pos_type(off_type(-1));
+    }
+    return base::seekpos(p, m);
+  }
+  pos_type seekoff(off_type off, std::ios_base::seekdir dir, std::ios_base::openmode m) override
+  {
+    if (refuse_next > 0 && !(off == 0 && dir == std::ios_base::cur))
+    {
+      --refuse_next;
+      return pos_type(off_type(-1));
+    }
+    return base::seekoff(off, dir, m);
+  }
+};
+template <class Ch>
+void transient_seek_failures(std::uint64_t total)
+{
+  using Str = std::basic_string<Ch>;
+  std::string e = std::string("stream<") + cn<Ch>() + ">/restore-fails-once";
+  if (!vf::entry_enabled(e))
+    return;
+  vf::set_entry(e);
+  std::uint64_t per = total / vf::opts().nparts + 1;
+  Ch const alpha[5] = {Ch('a'), Ch('\n'), Ch('b'), Ch('\n'), Ch(' ')};
+  for (std::uint64_t h = 0; h < per; ++h)
+  {
+    vf::rng g(vf::seed_for(e, h));
+    std::size_t len = g.below(16) + 4;
+    Str t;
+    for (std::size_t k = 0; k < len; ++k)
+      t += alpha[g.below(5)];
+    std::size_t const save_at = g.below(len / 2), fail_at = save_at + 1 + g.below(len - save_at - 1);
+    if (!vf::begin_case("seed=%" PRIu64 " part=%u h=%" PRIu64 " text=\"%s\" save at %zu, the restore attempted at %zu is refused by the device", vf::opts().seed, vf::opts().part, h,
+                        narrow_show(t).c_str(), save_at, fail_at))
+      continue;
+    vf::sample_case(1);
+    vf::note_distinct(vf::hash_mix(vf::hash_str(e), vf::hash_mix(vf::hash_bytes(t.data(), t.size() * sizeof(Ch)), save_at * 64 + fail_at)));
+    flaky_seek_buf<Ch> buf(t);
+    std::basic_istream<Ch> is(&buf);
+    fcppt::parse::detail::stream<Ch> st{fcppt::reference_to_base<std::basic_istream<Ch>>(fcppt::make_ref(is))};
+    checker<Ch> c(t, st, e);
+    std::size_t k = 0;
+    for (; k < save_at; ++k)
+      c.read(k, "before-save");
+    auto const saved = c.check_position(k, "save");
+    for (; k < fail_at; ++k)
+      c.read(k, "before-restore");
+    buf.refuse_next = 1;
+    bool threw = false;
+    try
+    {
+      st.set_position(saved);
+    }
+    catch (fcppt::parse::detail::exception<Ch> const &)
+    {
+      threw = true;
+    }
+    VF_COUNT("stream/restore-refused-once");
+    if (!threw)
+      c.fail("refused-restore-not-reported", "the device refused the seek and set_position returned normally");
+    is.clear();
+    // the stream is where it was (the seek did not happen): offset, line and column of THAT place
+    c.check_position(fail_at, "after-the-refused-restore");
+    for (std::size_t q = fail_at; q < t.size() && c.ok; ++q)
+      c.read(q, "after-the-refused-restore");
+    // and the saved position is still good for a later, successful restore
+    if (c.ok)
+    {
+      st.set_position(saved);
+      c.check_position(save_at, "second-restore");
+      c.read(save_at, "second-restore");
+    }
+  }
+}
+
 void body()
 {
   for (char const *b : {"stream/positions-checked", "stream/reads", "stream/reads-at-eof", "stream/restores",
@@ -1046,6 +1137,8 @@ void body()
   odd_locale_streams<wchar_t>(vf::tier<std::uint64_t>(600, 30000));
   facetless_character_types<char32_t>("char32_t", vf::tier<std::uint64_t>(600, 30000));
   facetless_character_types<char16_t>("char16_t", vf::tier<std::uint64_t>(600, 30000));
+  transient_seek_failures<char>(vf::tier<std::uint64_t>(600, 30000));
+  transient_seek_failures<wchar_t>(vf::tier<std::uint64_t>(600, 30000));
 }
 }
 
